@@ -1,51 +1,217 @@
 package main
 
-// Generators for routing / constituent models.
+import "math"
+
+// Generators for flow-routing models (constituent models: models_constituent.go).
+
+// steady-state coordination between Inputs and States of one Muskingum draw (Inputs is drawn first)
+var muskSteadyQ float64
 
 func init() {
-	regModel(&ModelGen{Name: "LumpedConstituentRouting",
-		Params: func(r *Rng) []float64 {
-			dt := []float64{86400, 3600, 1, 43200}[r.Intn(4)]
-			pi := 0.0
-			if r.Chance(0.4) {
-				pi = r.LogUniform(1e-6, 1)
-			}
-			return []float64{r.F01(), pi, dt}
-		},
-		Inputs: func(r *Rng, T int, p []float64) [][]float64 {
-			flow := Series(r, T, r.LogUniform(1e-3, 100))
-			storage := Series(r, T, r.LogUniform(1, 1e6))
-			if r.Chance(0.3) { // near-empty reach: exercises the MINIMUM_VOLUME flush
-				storage = Series(r, T, 1e-3)
-				flow = Series(r, T, 1e-8)
-			}
-			return [][]float64{Series(r, T, r.LogUniform(1e-4, 10)), Series(r, T, r.LogUniform(1e-4, 10)), flow, storage}
-		},
-		States: func(r *Rng, p []float64) []float64 { return []float64{r.LogUniform(1e-3, 1e5)} },
-	})
 	regModel(&ModelGen{Name: "Muskingum",
 		Params: func(r *Rng) []float64 {
 			dt := []float64{86400, 3600, 43200}[r.Intn(3)]
 			// stable region 2KX ≤ dt ≤ 2K(1-X)
 			x := r.Uniform(0, 0.5)
+			if r.Chance(0.15) {
+				x = 0
+			} else if r.Chance(0.1) {
+				x = []float64{0.5, 0.25, 0.1, 0.2}[r.Intn(4)]
+			}
 			lo := dt / (2 * (1 - x))
 			hi := dt * 50
 			if x > 0 && dt/(2*x) < hi {
 				hi = dt / (2 * x)
 			}
 			k := r.Uniform(lo, hi)
+			if r.Chance(0.1) {
+				k = lo // dt = 2K(1-X): a3 = 0
+			} else if r.Chance(0.1) {
+				k = hi // 2KX = dt: a1 = 0 (when the bound is active)
+			}
 			return []float64{k, x, dt}
 		},
 		Inputs: func(r *Rng, T int, p []float64) [][]float64 {
+			muskSteadyQ = 0
+			if r.Chance(0.15) { // steady flow: constant total inflow
+				q := r.LogUniform(1e-3, 1000)
+				if r.Chance(0.3) {
+					q = float64(r.Range(1, 50))
+				}
+				lat := 0.0
+				if r.Bool() {
+					lat = math.Round(q*r.F01()*8) / 8 // exactly representable split of small integers
+					if lat > q {
+						lat = 0
+					}
+				}
+				muskSteadyQ = q
+				return [][]float64{ConstSeries(T, q-lat), ConstSeries(T, lat)}
+			}
 			lat := Series(r, T, r.LogUniform(1e-3, 100))
 			if r.Chance(0.3) {
 				lat = make([]float64, T)
 			}
-			return [][]float64{Series(r, T, r.LogUniform(1e-3, 100)), lat}
+			in := Series(r, T, r.LogUniform(1e-3, 100))
+			if r.Chance(0.2) && T > 8 { // a finite event followed by a recession to zero inflow
+				for i := T / 3; i < T; i++ {
+					in[i], lat[i] = 0, 0
+				}
+			}
+			return [][]float64{in, lat}
 		},
 		States: func(r *Rng, p []float64) []float64 {
+			if muskSteadyQ > 0 {
+				return []float64{0, muskSteadyQ, muskSteadyQ}
+			}
 			q := r.LogUniform(1e-3, 100)
-			return []float64{0, q, q * r.Uniform(0.5, 1.5)}
+			return []float64{r.Uniform(0, 10), q, q * r.Uniform(0.5, 1.5)}
+		},
+	})
+
+	// Lag: timeLag (steps). The state row is the buffer of int(timeLag) cells.
+	regModel(&ModelGen{Name: "Lag",
+		Params: func(r *Rng) []float64 {
+			var lag float64
+			switch r.Intn(8) {
+			case 0:
+				lag = 0
+			case 1:
+				lag = 1
+			case 2:
+				lag = float64(r.Range(2, 6))
+			case 3:
+				lag = float64(r.Range(100, 260)) // longer than any series of the quick tier
+			case 4:
+				lag = float64(r.Range(0, 12)) + r.F01() // fractional: int() truncates
+			default:
+				lag = float64(r.Range(0, 130))
+			}
+			return []float64{lag}
+		},
+		Inputs: func(r *Rng, T int, p []float64) [][]float64 {
+			return [][]float64{Series(r, T, r.LogUniform(1e-3, 100))}
+		},
+		States: func(r *Rng, p []float64) []float64 {
+			n := int(p[0])
+			if r.Chance(0.06) {
+				n += r.Range(1, 3) // a longer state row: the extra cells must stay untouched
+			} else if r.Chance(0.02) && n > 0 {
+				n -= 1 // malformed: state row shorter than the lag (the code indexes out of range)
+			}
+			s := make([]float64, n)
+			for i := range s {
+				s[i] = math.Round(r.LogUniform(1e-3, 1e3)*1e3) / 1e3
+			}
+			return s
+		},
+	})
+
+	// StorageRouting: InflowBias, RoutingConstant k, RoutingPower m, area, deadStorage, DeltaT.
+	regModel(&ModelGen{Name: "StorageRouting",
+		Params: func(r *Rng) []float64 {
+			dt := []float64{86400, 86400, 3600, 43200}[r.Intn(4)]
+			var k float64
+			switch r.Intn(6) {
+			case 0:
+				k = r.LogUniform(1e-7, 1) // almost no routing storage: the full-drain exit
+			case 1:
+				k = r.LogUniform(1, 1e3)
+			default:
+				k = r.LogUniform(1e3, 1e6)
+			}
+			m := 1.0
+			switch r.Intn(8) {
+			case 0, 1, 2:
+				m = r.Uniform(0.3, 1)
+			case 3:
+				m = []float64{0.5, 0.6, 0.75, 0.8, 0.9}[r.Intn(5)]
+			case 4:
+				m = 1 + r.Uniform(-0.0009, 0.0009) // snapped to 1 when the bias is non-zero
+			case 5:
+				if r.Chance(0.3) {
+					m = r.Uniform(1.001, 1.6) // outside the property's region (m ≤ 1): correspondence only
+				}
+			}
+			bias := 0.0
+			switch r.Intn(10) {
+			case 0, 1, 2:
+				// within the Muskingum stability limit 2·k·bias ≤ dt
+				hi := math.Min(0.5, dt/(2*k))
+				if hi > 0.0011 {
+					bias = r.Uniform(0.0011, hi)
+				}
+			case 3:
+				bias = r.Uniform(-0.0009, 0.0009) // snapped to 0
+			case 4:
+				if r.Chance(0.3) {
+					bias = []float64{0.9995, 1, 0.7, 0.998}[r.Intn(4)] // outside the region: correspondence only
+				}
+			}
+			area := 0.0
+			if r.Chance(0.5) {
+				area = r.LogUniform(1e2, 1e8)
+			}
+			dead := 0.0
+			if r.Chance(0.45) {
+				dead = r.LogUniform(1, 1e5)
+				if r.Chance(0.3) {
+					dead = math.Round(dead)
+				}
+			}
+			return []float64{bias, k, m, area, dead, dt}
+		},
+		Inputs: func(r *Rng, T int, p []float64) [][]float64 {
+			sc := r.LogUniform(1e-4, 1e3)
+			in := Series(r, T, sc)
+			lat := Series(r, T, sc*r.LogUniform(1e-3, 1))
+			if r.Chance(0.4) {
+				lat = make([]float64, T)
+			}
+			rain := Series(r, T, r.Uniform(0, 40))
+			evap := Series(r, T, r.Uniform(0, 12))
+			if r.Chance(0.3) {
+				rain = make([]float64, T)
+			}
+			if r.Chance(0.2) {
+				evap = make([]float64, T)
+			}
+			switch r.Intn(10) {
+			case 0: // a constant flow: the previous index flow is still the solution (prev-qi exit)
+				q := r.LogUniform(1e-3, 100)
+				in, lat, rain, evap = ConstSeries(T, q), make([]float64, T), make([]float64, T), make([]float64, T)
+			case 1: // a long dry spell with evaporation emptying the reach
+				for i := T / 4; i < T; i++ {
+					in[i], lat[i], rain[i] = 0, 0, 0
+				}
+			case 2: // trickle into an empty reach below its dead storage
+				for i := range in {
+					in[i] = 1e-3 * r.F01()
+					lat[i] = 0
+				}
+			}
+			return [][]float64{in, lat, rain, evap}
+		},
+		States: func(r *Rng, p []float64) []float64 {
+			dead := p[4]
+			var s float64
+			switch r.Intn(6) {
+			case 0:
+				s = 0
+			case 1:
+				s = dead
+			case 2:
+				s = dead * r.F01()
+			case 3:
+				if r.Chance(0.25) {
+					s = r.LogUniform(1e13, 1e17) // so large that rounding residues exceed massBalanceLimit (zero-maxqi exit)
+				} else {
+					s = dead + r.LogUniform(1e-3, 1e3)
+				}
+			default:
+				s = dead + r.LogUniform(1, 1e7)
+			}
+			return []float64{s, r.LogUniform(1e-3, 10), r.LogUniform(1e-3, 10)}
 		},
 	})
 }
